@@ -325,6 +325,90 @@ theorem loop_roundtrip (code post : List (BitVec 8)) (loopStart operand : Nat) (
   have e : (code.length : Int) + 2 - (operand : Int) = (loopStart : Int) := by omega
   rw [e]
 
+/-! ### the dispatch arms that work inline (`Constant`, `Nil`, `True`, `False`, `Pop`, `CopyTop`) -/
+
+/-- `Constant lo hi`: pushes `constants[lo + 256*hi]` and moves two bytes on; panics exactly when the table has no such entry
+(excluded for verified code: `badConstant`). -/
+theorem vm_arm_constant_effect (vm : Rs.Vm) (pre post : List (BitVec 8)) (lo hi : BitVec 8) (v : Rs.Value)
+    (hc : vm.code = pre ++ lo :: hi :: post) (hip : vm.ip = (pre.length : Int)) (hv : vm.consts[u16 lo hi]? = some v) :
+    Fns.vm_arm_Constant vm = .ok ((), { vm with ip := vm.ip + 2, stack := vm.stack ++ [v] }) := by
+  unfold Fns.vm_arm_Constant Fns.vm_read_constant
+  rw [readShort_at vm pre post lo hi hc hip]
+  simp only [Rs.M.bind_ok, intOfBv_usize_16, short_toNat]
+  have hi' : Rs.idx vm.consts ((u16 lo hi : Nat) : Int) = .ok v := by
+    unfold Rs.idx
+    rw [if_neg (by omega)]
+    simp [hv]
+  simp [hi', Rs.Vm.push]
+
+theorem vm_arm_constant_panics (vm : Rs.Vm) (pre post : List (BitVec 8)) (lo hi : BitVec 8)
+    (hc : vm.code = pre ++ lo :: hi :: post) (hip : vm.ip = (pre.length : Int)) (hv : vm.consts[u16 lo hi]? = none) :
+    Fns.vm_arm_Constant vm = .panic := by
+  unfold Fns.vm_arm_Constant Fns.vm_read_constant
+  rw [readShort_at vm pre post lo hi hc hip]
+  simp only [Rs.M.bind_ok, intOfBv_usize_16, short_toNat]
+  have hi' : Rs.idx vm.consts ((u16 lo hi : Nat) : Int) = .panic := by
+    unfold Rs.idx
+    rw [if_neg (by omega)]
+    simp [hv]
+  simp [hi', Rs.M.bind]
+
+/-- `Nil`, `True`, `False`: one value pushed, nothing read, never a panic. -/
+theorem vm_arm_nil_effect (vm : Rs.Vm) : Fns.vm_arm_Nil vm = .ok ((), { vm with stack := vm.stack ++ [Rs.Value.None] }) := rfl
+theorem vm_arm_true_effect (vm : Rs.Vm) : Fns.vm_arm_True vm = .ok ((), { vm with stack := vm.stack ++ [Rs.Value.Boolean true] }) := rfl
+theorem vm_arm_false_effect (vm : Rs.Vm) : Fns.vm_arm_False vm = .ok ((), { vm with stack := vm.stack ++ [Rs.Value.Boolean false] }) := rfl
+
+/-- `Pop`: the top value goes; on an empty stack a panic (excluded for verified code: `stackUnderflow`). -/
+theorem vm_arm_pop_effect (vm : Rs.Vm) (rest : List Rs.Value) (v : Rs.Value) (h : vm.stack = rest ++ [v]) :
+    Fns.vm_arm_Pop vm = .ok ((), { vm with stack := rest }) := by
+  unfold Fns.vm_arm_Pop
+  rw [pop_append vm rest v h]
+  rfl
+
+theorem vm_arm_pop_empty (vm : Rs.Vm) (h : vm.stack = []) : Fns.vm_arm_Pop vm = .panic := by
+  unfold Fns.vm_arm_Pop Rs.Vm.pop
+  simp [h, Rs.M.bind]
+
+/-- `CopyTop`: the top value is pushed again. -/
+theorem vm_arm_copy_top_effect (vm : Rs.Vm) (rest : List Rs.Value) (v : Rs.Value) (h : vm.stack = rest ++ [v]) :
+    Fns.vm_arm_CopyTop vm = .ok ((), { vm with stack := rest ++ [v, v] }) := by
+  unfold Fns.vm_arm_CopyTop Rs.Vm.peek
+  simp [h, Rs.Vm.push, Rs.M.bind]
+
+/-- What the frame machine of C04 (Model/Bytecode.lean) assumes of these six instructions - how many values each removes and adds, and
+that `Constant` alone has operands (two bytes) - is what the translated arms do. -/
+theorem inline_arms_match_the_bytecode_table :
+    (∀ (vm : Rs.Vm) pre post lo hi v, vm.code = pre ++ lo :: hi :: post → vm.ip = (pre.length : Int) → vm.consts[u16 lo hi]? = some v →
+      ∃ vm', Fns.vm_arm_Constant vm = .ok ((), vm') ∧ vm'.ip = vm.ip + 2 ∧
+        vm'.stack.length = vm.stack.length - Bytecode.Instr.pops { op := .constant, size := 3 } + Bytecode.Instr.pushes { op := .constant, size := 3 }) ∧
+    (∀ (vm : Rs.Vm), ∃ vm', Fns.vm_arm_Nil vm = .ok ((), vm') ∧ vm'.ip = vm.ip ∧
+        vm'.stack.length = vm.stack.length - Bytecode.Instr.pops { op := .nil, size := 1 } + Bytecode.Instr.pushes { op := .nil, size := 1 }) ∧
+    (∀ (vm : Rs.Vm), ∃ vm', Fns.vm_arm_True vm = .ok ((), vm') ∧ vm'.ip = vm.ip ∧
+        vm'.stack.length = vm.stack.length - Bytecode.Instr.pops { op := .true_, size := 1 } + Bytecode.Instr.pushes { op := .true_, size := 1 }) ∧
+    (∀ (vm : Rs.Vm), ∃ vm', Fns.vm_arm_False vm = .ok ((), vm') ∧ vm'.ip = vm.ip ∧
+        vm'.stack.length = vm.stack.length - Bytecode.Instr.pops { op := .false_, size := 1 } + Bytecode.Instr.pushes { op := .false_, size := 1 }) ∧
+    (∀ (vm : Rs.Vm) rest v, vm.stack = rest ++ [v] → ∃ vm', Fns.vm_arm_Pop vm = .ok ((), vm') ∧ vm'.ip = vm.ip ∧
+        vm'.stack.length = vm.stack.length - Bytecode.Instr.pops { op := .pop, size := 1 } + Bytecode.Instr.pushes { op := .pop, size := 1 }) ∧
+    (∀ (vm : Rs.Vm) rest v, vm.stack = rest ++ [v] → ∃ vm', Fns.vm_arm_CopyTop vm = .ok ((), vm') ∧ vm'.ip = vm.ip ∧
+        vm'.stack.length = vm.stack.length - Bytecode.Instr.pops { op := .copyTop, size := 1 } + Bytecode.Instr.pushes { op := .copyTop, size := 1 }) := by
+  refine ⟨?_, ?_, ?_, ?_, ?_, ?_⟩
+  · intro vm pre post lo hi v hc hip hv
+    exact ⟨_, vm_arm_constant_effect vm pre post lo hi v hc hip hv, rfl, by simp [Bytecode.Instr.pops, Bytecode.Instr.pushes]⟩
+  · intro vm; exact ⟨_, vm_arm_nil_effect vm, rfl, by simp [Bytecode.Instr.pops, Bytecode.Instr.pushes]⟩
+  · intro vm; exact ⟨_, vm_arm_true_effect vm, rfl, by simp [Bytecode.Instr.pops, Bytecode.Instr.pushes]⟩
+  · intro vm; exact ⟨_, vm_arm_false_effect vm, rfl, by simp [Bytecode.Instr.pops, Bytecode.Instr.pushes]⟩
+  · intro vm rest v h
+    exact ⟨_, vm_arm_pop_effect vm rest v h, rfl, by simp [Bytecode.Instr.pops, Bytecode.Instr.pushes, h]⟩
+  · intro vm rest v h
+    exact ⟨_, vm_arm_copy_top_effect vm rest v h, rfl, by simp [Bytecode.Instr.pops, Bytecode.Instr.pushes, h]⟩
+
+#print axioms inline_arms_match_the_bytecode_table
+#print axioms vm_arm_constant_effect
+#print axioms vm_arm_constant_panics
+#print axioms vm_arm_nil_effect
+#print axioms vm_arm_pop_effect
+#print axioms vm_arm_pop_empty
+#print axioms vm_arm_copy_top_effect
 #print axioms pop_append
 #print axioms readShort_at
 #print axioms readByte_at
